@@ -16,11 +16,11 @@ package parser
 //@     !has(p.prefixParseFns, token.EOF) && !has(p.infixParseFns, token.EOF)
 // C15: every recorded syntax error starts with "line N: "
 //@ pred errsok(p *parser) = forall i int :: 0 <= i && i < len(p.errors) ==> lineprefixed(p.errors[i])
-//@ pred pinv(p *parser) = p.Lexer != nil && lexer.linv(p.Lexer) && ptables(p) && errsok(p)
+//@ pred pinv(p *parser) = p.Lexer != nil && lexer.linv(p.Lexer) && lexer.lhtml(p.Lexer) && ptables(p) && errsok(p)
 
 //@ func (p *parser) nextToken
 //@ requires pinv(p)
-//@ ensures inv: lexer.linv(p.Lexer) && errsok(p)
+//@ ensures inv: lexer.linv(p.Lexer) && lexer.lhtml(p.Lexer) && errsok(p)
 //@ ensures cur: p.curToken == old(p.peekToken)
 //@ ensures measure: M(p) <= old(M(p)) - ite(old(p.curToken.Type) != token.EOF || old(p.peekToken.Type) != token.EOF, 1, 0)
 //@ assigns p.curToken, p.peekToken, p.Lexer.ch, p.Lexer.position, p.Lexer.readPosition, p.Lexer.curLine, p.Lexer.inside
@@ -45,28 +45,28 @@ package parser
 
 //@ func (p *parser) expectPeek
 //@ requires pinv(p) && t != token.EOF
-//@ ensures inv: lexer.linv(p.Lexer) && errsok(p)
+//@ ensures inv: lexer.linv(p.Lexer) && lexer.lhtml(p.Lexer) && errsok(p)
 //@ ensures yes: result ==> p.curToken == old(p.peekToken) && p.curToken.Type == t && M(p) <= old(M(p)) - 1 && len(p.errors) == old(len(p.errors))
 //@ ensures no: !result ==> M(p) == old(M(p)) && p.curToken == old(p.curToken) && p.peekToken == old(p.peekToken) && len(p.errors) == old(len(p.errors)) + 1
 //@ assigns p.curToken, p.peekToken, p.errors, p.Lexer.ch, p.Lexer.position, p.Lexer.readPosition, p.Lexer.curLine, p.Lexer.inside
 
 //@ func newParser
-//@ requires l != nil && lexer.linv(l)
+//@ requires l != nil && lexer.linv(l) && lexer.lhtml(l)
 //@ ensures inv: fresh(result) && pinv(result) && result.Lexer == l && !result.inForBlock && len(result.errors) == 0
 //@ assigns l.ch, l.position, l.readPosition, l.curLine, l.inside, fresh
 
 //@ func (p *parser) parseProgram
 //@ requires pinv(p)
-//@ ensures inv: lexer.linv(p.Lexer) && errsok(p) && M(p) <= old(M(p))
+//@ ensures inv: lexer.linv(p.Lexer) && lexer.lhtml(p.Lexer) && errsok(p) && M(p) <= old(M(p))
 //@ ensures flag: p.inForBlock == old(p.inForBlock)
 //@ assigns p.curToken, p.peekToken, p.errors, p.inForBlock, p.Lexer.ch, p.Lexer.position, p.Lexer.readPosition, p.Lexer.curLine, p.Lexer.inside, anyobj(ast.Identifier.Callee), anyobj(ast.CallExpression.Callee), anyobj(ast.CallExpression.Block), fresh
-//@ loop 1: invariant lexer.linv(p.Lexer) && errsok(p) && M(p) <= old(M(p)) && p.inForBlock == old(p.inForBlock) && program != nil
+//@ loop 1: invariant lexer.linv(p.Lexer) && lexer.lhtml(p.Lexer) && errsok(p) && M(p) <= old(M(p)) && p.inForBlock == old(p.inForBlock) && program != nil
 //@ loop 1: invariant stmts: forall i int :: 0 <= i && i < len(program.Statements) ==> nnx(program.Statements[i])
 //@ loop 1: decreases ite(p.curToken.Type != token.EOF, 1 + M(p), 0)
 
 //@ func (p *parser) parseStatement
 //@ requires pinv(p)
-//@ ensures inv: lexer.linv(p.Lexer) && errsok(p) && M(p) <= old(M(p))
+//@ ensures inv: lexer.linv(p.Lexer) && lexer.lhtml(p.Lexer) && errsok(p) && M(p) <= old(M(p))
 //@ ensures flag: p.inForBlock == old(p.inForBlock)
 //@ ensures wf: result == nil || pay(result) != 0
 //@ ensures origc: is(result, "*ast.Identifier") ==> unbox(result, "*ast.Identifier").OriginalCallee != nil
@@ -77,7 +77,7 @@ package parser
 //@ func (p *parser) parseReturnStatement
 //@ requires pinv(p)
 //@ requires cur: p.curToken.Type != token.EOF
-//@ ensures inv: lexer.linv(p.Lexer) && errsok(p) && M(p) <= old(M(p))
+//@ ensures inv: lexer.linv(p.Lexer) && lexer.lhtml(p.Lexer) && errsok(p) && M(p) <= old(M(p))
 //@ ensures flag: p.inForBlock == old(p.inForBlock)
 //@ ensures nn: result != nil
 //@ assigns p.curToken, p.peekToken, p.errors, p.inForBlock, p.Lexer.ch, p.Lexer.position, p.Lexer.readPosition, p.Lexer.curLine, p.Lexer.inside, anyobj(ast.Identifier.Callee), anyobj(ast.CallExpression.Callee), anyobj(ast.CallExpression.Block), fresh
@@ -86,7 +86,7 @@ package parser
 
 //@ func (p *parser) parseLetStatement
 //@ requires pinv(p)
-//@ ensures inv: lexer.linv(p.Lexer) && errsok(p) && M(p) <= old(M(p))
+//@ ensures inv: lexer.linv(p.Lexer) && lexer.lhtml(p.Lexer) && errsok(p) && M(p) <= old(M(p))
 //@ ensures flag: p.inForBlock == old(p.inForBlock)
 //@ ensures nn: result != nil
 //@ assigns p.curToken, p.peekToken, p.errors, p.inForBlock, p.Lexer.ch, p.Lexer.position, p.Lexer.readPosition, p.Lexer.curLine, p.Lexer.inside, anyobj(ast.Identifier.Callee), anyobj(ast.CallExpression.Callee), anyobj(ast.CallExpression.Block), fresh
@@ -95,7 +95,7 @@ package parser
 
 //@ func (p *parser) parseExpressionStatement
 //@ requires pinv(p)
-//@ ensures inv: lexer.linv(p.Lexer) && errsok(p) && M(p) <= old(M(p))
+//@ ensures inv: lexer.linv(p.Lexer) && lexer.lhtml(p.Lexer) && errsok(p) && M(p) <= old(M(p))
 //@ ensures flag: p.inForBlock == old(p.inForBlock)
 //@ ensures nn: result != nil
 //@ assigns p.curToken, p.peekToken, p.errors, p.inForBlock, p.Lexer.ch, p.Lexer.position, p.Lexer.readPosition, p.Lexer.curLine, p.Lexer.inside, anyobj(ast.Identifier.Callee), anyobj(ast.CallExpression.Callee), anyobj(ast.CallExpression.Block), fresh
@@ -104,31 +104,31 @@ package parser
 
 //@ func (p *parser) parseExpression
 //@ requires pinv(p)
-//@ ensures inv: lexer.linv(p.Lexer) && errsok(p) && M(p) <= old(M(p))
+//@ ensures inv: lexer.linv(p.Lexer) && lexer.lhtml(p.Lexer) && errsok(p) && M(p) <= old(M(p))
 //@ ensures flag: p.inForBlock == old(p.inForBlock)
 //@ ensures wf: result == nil || pay(result) != 0
 //@ ensures origc: is(result, "*ast.Identifier") ==> unbox(result, "*ast.Identifier").OriginalCallee != nil
 //@ assigns p.curToken, p.peekToken, p.errors, p.inForBlock, p.Lexer.ch, p.Lexer.position, p.Lexer.readPosition, p.Lexer.curLine, p.Lexer.inside, anyobj(ast.Identifier.Callee), anyobj(ast.CallExpression.Callee), anyobj(ast.CallExpression.Block), fresh
 //@ decreases M(p), 8
 //@ mutual
-//@ loop 1: invariant lexer.linv(p.Lexer) && errsok(p) && M(p) <= old(M(p)) && p.inForBlock == old(p.inForBlock) && leftExp != nil && pay(leftExp) != 0 && (is(leftExp, "*ast.Identifier") ==> unbox(leftExp, "*ast.Identifier").OriginalCallee != nil)
+//@ loop 1: invariant lexer.linv(p.Lexer) && lexer.lhtml(p.Lexer) && errsok(p) && M(p) <= old(M(p)) && p.inForBlock == old(p.inForBlock) && leftExp != nil && pay(leftExp) != 0 && (is(leftExp, "*ast.Identifier") ==> unbox(leftExp, "*ast.Identifier").OriginalCallee != nil)
 //@ loop 1: decreases M(p)
 
 //@ func (p *parser) parseIdentifier
 //@ requires pinv(p)
-//@ ensures inv: lexer.linv(p.Lexer) && errsok(p) && M(p) <= old(M(p))
+//@ ensures inv: lexer.linv(p.Lexer) && lexer.lhtml(p.Lexer) && errsok(p) && M(p) <= old(M(p))
 //@ ensures flag: p.inForBlock == old(p.inForBlock)
 //@ ensures wf: result == nil || pay(result) != 0
 //@ ensures origc: is(result, "*ast.Identifier") ==> unbox(result, "*ast.Identifier").OriginalCallee != nil
 //@ assigns p.curToken, p.peekToken, p.errors, p.inForBlock, p.Lexer.ch, p.Lexer.position, p.Lexer.readPosition, p.Lexer.curLine, p.Lexer.inside, anyobj(ast.Identifier.Callee), anyobj(ast.CallExpression.Callee), anyobj(ast.CallExpression.Block), fresh
 //@ decreases M(p), 7
 //@ mutual
-//@ loop 1: invariant lexer.linv(p.Lexer) && errsok(p) && M(p) <= old(M(p)) && p.inForBlock == old(p.inForBlock) && id != nil && fresh(id) && orignalCalleAddress != nil && 1 <= i && len(ss) >= 1
+//@ loop 1: invariant lexer.linv(p.Lexer) && lexer.lhtml(p.Lexer) && errsok(p) && M(p) <= old(M(p)) && p.inForBlock == old(p.inForBlock) && id != nil && fresh(id) && orignalCalleAddress != nil && 1 <= i && len(ss) >= 1
 //@ loop 1: decreases len(ss) - i
 
 //@ func (p *parser) parseForLoopControlFlow
 //@ requires pinv(p)
-//@ ensures inv: lexer.linv(p.Lexer) && errsok(p) && M(p) <= old(M(p))
+//@ ensures inv: lexer.linv(p.Lexer) && lexer.lhtml(p.Lexer) && errsok(p) && M(p) <= old(M(p))
 //@ ensures flag: p.inForBlock == old(p.inForBlock)
 //@ ensures wf: result == nil || pay(result) != 0
 //@ ensures origc: is(result, "*ast.Identifier") ==> unbox(result, "*ast.Identifier").OriginalCallee != nil
@@ -138,7 +138,7 @@ package parser
 
 //@ func (p *parser) parseIntegerLiteral
 //@ requires pinv(p)
-//@ ensures inv: lexer.linv(p.Lexer) && errsok(p) && M(p) <= old(M(p))
+//@ ensures inv: lexer.linv(p.Lexer) && lexer.lhtml(p.Lexer) && errsok(p) && M(p) <= old(M(p))
 //@ ensures flag: p.inForBlock == old(p.inForBlock)
 //@ ensures wf: result == nil || pay(result) != 0
 //@ ensures origc: is(result, "*ast.Identifier") ==> unbox(result, "*ast.Identifier").OriginalCallee != nil
@@ -148,7 +148,7 @@ package parser
 
 //@ func (p *parser) parseFloatLiteral
 //@ requires pinv(p)
-//@ ensures inv: lexer.linv(p.Lexer) && errsok(p) && M(p) <= old(M(p))
+//@ ensures inv: lexer.linv(p.Lexer) && lexer.lhtml(p.Lexer) && errsok(p) && M(p) <= old(M(p))
 //@ ensures flag: p.inForBlock == old(p.inForBlock)
 //@ ensures wf: result == nil || pay(result) != 0
 //@ ensures origc: is(result, "*ast.Identifier") ==> unbox(result, "*ast.Identifier").OriginalCallee != nil
@@ -158,7 +158,7 @@ package parser
 
 //@ func (p *parser) parseStringLiteral
 //@ requires pinv(p)
-//@ ensures inv: lexer.linv(p.Lexer) && errsok(p) && M(p) <= old(M(p))
+//@ ensures inv: lexer.linv(p.Lexer) && lexer.lhtml(p.Lexer) && errsok(p) && M(p) <= old(M(p))
 //@ ensures flag: p.inForBlock == old(p.inForBlock)
 //@ ensures wf: result == nil || pay(result) != 0
 //@ ensures origc: is(result, "*ast.Identifier") ==> unbox(result, "*ast.Identifier").OriginalCallee != nil
@@ -168,7 +168,7 @@ package parser
 
 //@ func (p *parser) parseBoolean
 //@ requires pinv(p)
-//@ ensures inv: lexer.linv(p.Lexer) && errsok(p) && M(p) <= old(M(p))
+//@ ensures inv: lexer.linv(p.Lexer) && lexer.lhtml(p.Lexer) && errsok(p) && M(p) <= old(M(p))
 //@ ensures flag: p.inForBlock == old(p.inForBlock)
 //@ ensures wf: result == nil || pay(result) != 0
 //@ ensures origc: is(result, "*ast.Identifier") ==> unbox(result, "*ast.Identifier").OriginalCallee != nil
@@ -178,7 +178,7 @@ package parser
 
 //@ func (p *parser) parseHTMLLiteral
 //@ requires pinv(p)
-//@ ensures inv: lexer.linv(p.Lexer) && errsok(p) && M(p) <= old(M(p))
+//@ ensures inv: lexer.linv(p.Lexer) && lexer.lhtml(p.Lexer) && errsok(p) && M(p) <= old(M(p))
 //@ ensures flag: p.inForBlock == old(p.inForBlock)
 //@ ensures wf: result == nil || pay(result) != 0
 //@ ensures origc: is(result, "*ast.Identifier") ==> unbox(result, "*ast.Identifier").OriginalCallee != nil
@@ -189,7 +189,7 @@ package parser
 //@ func (p *parser) parseAssignExpression
 //@ requires pinv(p)
 //@ requires id != nil
-//@ ensures inv: lexer.linv(p.Lexer) && errsok(p) && M(p) <= old(M(p))
+//@ ensures inv: lexer.linv(p.Lexer) && lexer.lhtml(p.Lexer) && errsok(p) && M(p) <= old(M(p))
 //@ ensures flag: p.inForBlock == old(p.inForBlock)
 //@ ensures wf: result == nil || pay(result) != 0
 //@ ensures origc: is(result, "*ast.Identifier") ==> unbox(result, "*ast.Identifier").OriginalCallee != nil
@@ -199,20 +199,20 @@ package parser
 
 //@ func (p *parser) parseCommentLiteral
 //@ requires pinv(p)
-//@ ensures inv: lexer.linv(p.Lexer) && errsok(p) && M(p) <= old(M(p))
+//@ ensures inv: lexer.linv(p.Lexer) && lexer.lhtml(p.Lexer) && errsok(p) && M(p) <= old(M(p))
 //@ ensures flag: p.inForBlock == old(p.inForBlock)
 //@ ensures wf: result == nil || pay(result) != 0
 //@ ensures origc: is(result, "*ast.Identifier") ==> unbox(result, "*ast.Identifier").OriginalCallee != nil
 //@ assigns p.curToken, p.peekToken, p.errors, p.inForBlock, p.Lexer.ch, p.Lexer.position, p.Lexer.readPosition, p.Lexer.curLine, p.Lexer.inside, anyobj(ast.Identifier.Callee), anyobj(ast.CallExpression.Callee), anyobj(ast.CallExpression.Block), fresh
 //@ decreases M(p), 7
 //@ mutual
-//@ loop 1: invariant lexer.linv(p.Lexer) && errsok(p) && M(p) <= old(M(p)) && p.inForBlock == old(p.inForBlock)
+//@ loop 1: invariant lexer.linv(p.Lexer) && lexer.lhtml(p.Lexer) && errsok(p) && M(p) <= old(M(p)) && p.inForBlock == old(p.inForBlock)
 //@ loop 1: decreases M(p)
 
 //@ func (p *parser) parsePrefixExpression
 //@ requires pinv(p)
 //@ requires cur: p.curToken.Type != token.EOF
-//@ ensures inv: lexer.linv(p.Lexer) && errsok(p) && M(p) <= old(M(p))
+//@ ensures inv: lexer.linv(p.Lexer) && lexer.lhtml(p.Lexer) && errsok(p) && M(p) <= old(M(p))
 //@ ensures flag: p.inForBlock == old(p.inForBlock)
 //@ ensures wf: result == nil || pay(result) != 0
 //@ ensures origc: is(result, "*ast.Identifier") ==> unbox(result, "*ast.Identifier").OriginalCallee != nil
@@ -225,7 +225,7 @@ package parser
 //@ requires cur: p.curToken.Type != token.EOF
 //@ requires left: left == nil || pay(left) != 0
 //@ requires leftorig: is(left, "*ast.Identifier") ==> unbox(left, "*ast.Identifier").OriginalCallee != nil
-//@ ensures inv: lexer.linv(p.Lexer) && errsok(p) && M(p) <= old(M(p))
+//@ ensures inv: lexer.linv(p.Lexer) && lexer.lhtml(p.Lexer) && errsok(p) && M(p) <= old(M(p))
 //@ ensures flag: p.inForBlock == old(p.inForBlock)
 //@ ensures wf: result == nil || pay(result) != 0
 //@ ensures origc: is(result, "*ast.Identifier") ==> unbox(result, "*ast.Identifier").OriginalCallee != nil
@@ -236,7 +236,7 @@ package parser
 //@ func (p *parser) parseGroupedExpression
 //@ requires pinv(p)
 //@ requires cur: p.curToken.Type != token.EOF
-//@ ensures inv: lexer.linv(p.Lexer) && errsok(p) && M(p) <= old(M(p))
+//@ ensures inv: lexer.linv(p.Lexer) && lexer.lhtml(p.Lexer) && errsok(p) && M(p) <= old(M(p))
 //@ ensures flag: p.inForBlock == old(p.inForBlock)
 //@ ensures wf: result == nil || pay(result) != 0
 //@ ensures origc: is(result, "*ast.Identifier") ==> unbox(result, "*ast.Identifier").OriginalCallee != nil
@@ -249,35 +249,35 @@ package parser
 // C18 cursor convention: a block construct ends on its closing brace (or at EOF); (when the iterable is a
 // call expression the loop may have taken over that call's block - not covered by this clause)
 //@ ensures lasttok: result != nil && !is(unbox(result, "*ast.ForExpression").Iterable, "*ast.CallExpression") ==> p.curToken.Type == token.RBRACE || p.curToken.Type == token.EOF
-//@ ensures inv: lexer.linv(p.Lexer) && errsok(p) && M(p) <= old(M(p))
+//@ ensures inv: lexer.linv(p.Lexer) && lexer.lhtml(p.Lexer) && errsok(p) && M(p) <= old(M(p))
 //@ ensures flag: p.inForBlock == old(p.inForBlock)
 //@ ensures wf: result == nil || pay(result) != 0
 //@ ensures origc: is(result, "*ast.Identifier") ==> unbox(result, "*ast.Identifier").OriginalCallee != nil
 //@ assigns p.curToken, p.peekToken, p.errors, p.inForBlock, p.Lexer.ch, p.Lexer.position, p.Lexer.readPosition, p.Lexer.curLine, p.Lexer.inside, anyobj(ast.Identifier.Callee), anyobj(ast.CallExpression.Callee), anyobj(ast.CallExpression.Block), fresh
 //@ decreases M(p), 7
 //@ mutual
-//@ loop 1: invariant lexer.linv(p.Lexer) && errsok(p) && M(p) <= old(M(p)) && expression != nil
+//@ loop 1: invariant lexer.linv(p.Lexer) && lexer.lhtml(p.Lexer) && errsok(p) && M(p) <= old(M(p)) && expression != nil
 //@ loop 1: decreases M(p)
 
 //@ func (p *parser) parseIfExpression
 //@ requires pinv(p)
 // C18 cursor convention: a block construct ends on its closing brace (or at EOF)
 //@ ensures lasttok: result != nil ==> p.curToken.Type == token.RBRACE || p.curToken.Type == token.EOF
-//@ ensures inv: lexer.linv(p.Lexer) && errsok(p) && M(p) <= old(M(p))
+//@ ensures inv: lexer.linv(p.Lexer) && lexer.lhtml(p.Lexer) && errsok(p) && M(p) <= old(M(p))
 //@ ensures flag: p.inForBlock == old(p.inForBlock)
 //@ ensures wf: result == nil || pay(result) != 0
 //@ ensures origc: is(result, "*ast.Identifier") ==> unbox(result, "*ast.Identifier").OriginalCallee != nil
 //@ assigns p.curToken, p.peekToken, p.errors, p.inForBlock, p.Lexer.ch, p.Lexer.position, p.Lexer.readPosition, p.Lexer.curLine, p.Lexer.inside, anyobj(ast.Identifier.Callee), anyobj(ast.CallExpression.Callee), anyobj(ast.CallExpression.Block), fresh
 //@ decreases M(p), 7
 //@ mutual
-//@ loop 1: invariant lexer.linv(p.Lexer) && errsok(p) && M(p) <= old(M(p)) && p.inForBlock == old(p.inForBlock) && expression != nil && nnx(expression.Condition) && expression.Block != nil && (p.curToken.Type == token.RBRACE || p.curToken.Type == token.EOF) && (forall i int :: 0 <= i && i < len(expression.ElseIf) ==> expression.ElseIf[i] != nil)
+//@ loop 1: invariant lexer.linv(p.Lexer) && lexer.lhtml(p.Lexer) && errsok(p) && M(p) <= old(M(p)) && p.inForBlock == old(p.inForBlock) && expression != nil && nnx(expression.Condition) && expression.Block != nil && (p.curToken.Type == token.RBRACE || p.curToken.Type == token.EOF) && (forall i int :: 0 <= i && i < len(expression.ElseIf) ==> expression.ElseIf[i] != nil)
 //@ loop 1: decreases M(p)
 
 //@ func (p *parser) parseElseIfExpression
 //@ requires pinv(p)
 //@ ensures lasttok: result != nil ==> p.curToken.Type == token.RBRACE || p.curToken.Type == token.EOF
 //@ requires cur: p.curToken.Type != token.EOF
-//@ ensures inv: lexer.linv(p.Lexer) && errsok(p) && M(p) <= old(M(p))
+//@ ensures inv: lexer.linv(p.Lexer) && lexer.lhtml(p.Lexer) && errsok(p) && M(p) <= old(M(p))
 //@ ensures flag: p.inForBlock == old(p.inForBlock)
 //@ assigns p.curToken, p.peekToken, p.errors, p.inForBlock, p.Lexer.ch, p.Lexer.position, p.Lexer.readPosition, p.Lexer.curLine, p.Lexer.inside, anyobj(ast.Identifier.Callee), anyobj(ast.CallExpression.Callee), anyobj(ast.CallExpression.Block), fresh
 //@ decreases M(p), 6
@@ -287,13 +287,13 @@ package parser
 //@ requires pinv(p)
 //@ ensures lasttok: p.curToken.Type == token.RBRACE || p.curToken.Type == token.EOF
 //@ requires cur: p.curToken.Type != token.EOF
-//@ ensures inv: lexer.linv(p.Lexer) && errsok(p) && M(p) <= old(M(p))
+//@ ensures inv: lexer.linv(p.Lexer) && lexer.lhtml(p.Lexer) && errsok(p) && M(p) <= old(M(p))
 //@ ensures flag: p.inForBlock == old(p.inForBlock)
 //@ ensures nn: result != nil
 //@ assigns p.curToken, p.peekToken, p.errors, p.inForBlock, p.Lexer.ch, p.Lexer.position, p.Lexer.readPosition, p.Lexer.curLine, p.Lexer.inside, anyobj(ast.Identifier.Callee), anyobj(ast.CallExpression.Callee), anyobj(ast.CallExpression.Block), fresh
 //@ decreases M(p), 5
 //@ mutual
-//@ loop 1: invariant lexer.linv(p.Lexer) && errsok(p) && M(p) <= old(M(p)) && p.inForBlock == old(p.inForBlock) && block != nil && M(p) < old(M(p))
+//@ loop 1: invariant lexer.linv(p.Lexer) && lexer.lhtml(p.Lexer) && errsok(p) && M(p) <= old(M(p)) && p.inForBlock == old(p.inForBlock) && block != nil && M(p) < old(M(p))
 //@ loop 1: invariant stmts: forall i int :: 0 <= i && i < len(block.Statements) ==> nnx(block.Statements[i])
 //@ loop 1: decreases ite(p.curToken.Type != token.EOF, 1 + M(p), 0)
 
@@ -301,7 +301,7 @@ package parser
 //@ requires pinv(p)
 // C18 cursor convention: a block construct ends on its closing brace (or at EOF)
 //@ ensures lasttok: result != nil ==> p.curToken.Type == token.RBRACE || p.curToken.Type == token.EOF
-//@ ensures inv: lexer.linv(p.Lexer) && errsok(p) && M(p) <= old(M(p))
+//@ ensures inv: lexer.linv(p.Lexer) && lexer.lhtml(p.Lexer) && errsok(p) && M(p) <= old(M(p))
 //@ ensures flag: p.inForBlock == old(p.inForBlock)
 //@ ensures wf: result == nil || pay(result) != 0
 //@ ensures origc: is(result, "*ast.Identifier") ==> unbox(result, "*ast.Identifier").OriginalCallee != nil
@@ -311,13 +311,13 @@ package parser
 
 //@ func (p *parser) parseFunctionParameters
 //@ requires pinv(p)
-//@ ensures inv: lexer.linv(p.Lexer) && errsok(p) && M(p) <= old(M(p))
+//@ ensures inv: lexer.linv(p.Lexer) && lexer.lhtml(p.Lexer) && errsok(p) && M(p) <= old(M(p))
 //@ ensures flag: p.inForBlock == old(p.inForBlock)
 //@ ensures params: forall i int :: 0 <= i && i < len(result) ==> result[i] != nil
 //@ assigns p.curToken, p.peekToken, p.errors, p.inForBlock, p.Lexer.ch, p.Lexer.position, p.Lexer.readPosition, p.Lexer.curLine, p.Lexer.inside, anyobj(ast.Identifier.Callee), anyobj(ast.CallExpression.Callee), anyobj(ast.CallExpression.Block), fresh
 //@ decreases M(p), 6
 //@ mutual
-//@ loop 1: invariant lexer.linv(p.Lexer) && errsok(p) && M(p) <= old(M(p)) && p.inForBlock == old(p.inForBlock) && (forall i int :: 0 <= i && i < len(identifiers) ==> identifiers[i] != nil)
+//@ loop 1: invariant lexer.linv(p.Lexer) && lexer.lhtml(p.Lexer) && errsok(p) && M(p) <= old(M(p)) && p.inForBlock == old(p.inForBlock) && (forall i int :: 0 <= i && i < len(identifiers) ==> identifiers[i] != nil)
 //@ loop 1: decreases M(p)
 
 //@ func (p *parser) parseCallExpression
@@ -325,33 +325,33 @@ package parser
 //@ ensures blocktok: result != nil && unbox(result, "*ast.CallExpression").Block != nil && unbox(result, "*ast.CallExpression").ChainCallee == nil ==> p.curToken.Type == token.RBRACE || p.curToken.Type == token.EOF
 //@ requires cur: p.curToken.Type != token.EOF
 //@ requires fn: function != nil && pay(function) != 0
-//@ ensures inv: lexer.linv(p.Lexer) && errsok(p) && M(p) <= old(M(p))
+//@ ensures inv: lexer.linv(p.Lexer) && lexer.lhtml(p.Lexer) && errsok(p) && M(p) <= old(M(p))
 //@ ensures flag: p.inForBlock == old(p.inForBlock)
 //@ ensures wf: result == nil || pay(result) != 0
 //@ ensures origc: is(result, "*ast.Identifier") ==> unbox(result, "*ast.Identifier").OriginalCallee != nil
 //@ assigns p.curToken, p.peekToken, p.errors, p.inForBlock, p.Lexer.ch, p.Lexer.position, p.Lexer.readPosition, p.Lexer.curLine, p.Lexer.inside, anyobj(ast.Identifier.Callee), anyobj(ast.CallExpression.Callee), anyobj(ast.CallExpression.Block), fresh
 //@ decreases M(p), 7
 //@ mutual
-//@ loop 1: invariant lexer.linv(p.Lexer) && errsok(p) && M(p) <= old(M(p)) && p.inForBlock == old(p.inForBlock) && exp != nil && len(ss) >= 2 && 1 <= i && is(exp.Callee, "*ast.Identifier") && pay(exp.Callee) != 0
+//@ loop 1: invariant lexer.linv(p.Lexer) && lexer.lhtml(p.Lexer) && errsok(p) && M(p) <= old(M(p)) && p.inForBlock == old(p.inForBlock) && exp != nil && len(ss) >= 2 && 1 <= i && is(exp.Callee, "*ast.Identifier") && pay(exp.Callee) != 0
 //@ loop 1: decreases len(ss) - i
 
 //@ func (p *parser) parseExpressionList
 //@ requires pinv(p)
 //@ requires cur: p.curToken.Type != token.EOF
 //@ requires end: end != token.EOF
-//@ ensures inv: lexer.linv(p.Lexer) && errsok(p) && M(p) <= old(M(p))
+//@ ensures inv: lexer.linv(p.Lexer) && lexer.lhtml(p.Lexer) && errsok(p) && M(p) <= old(M(p))
 //@ ensures flag: p.inForBlock == old(p.inForBlock)
 //@ ensures elems: forall i int :: 0 <= i && i < len(result) ==> (result[i] == nil || pay(result[i]) != 0)
 //@ assigns p.curToken, p.peekToken, p.errors, p.inForBlock, p.Lexer.ch, p.Lexer.position, p.Lexer.readPosition, p.Lexer.curLine, p.Lexer.inside, anyobj(ast.Identifier.Callee), anyobj(ast.CallExpression.Callee), anyobj(ast.CallExpression.Block), fresh
 //@ decreases M(p), 6
 //@ mutual
-//@ loop 1: invariant lexer.linv(p.Lexer) && errsok(p) && M(p) <= old(M(p)) && p.inForBlock == old(p.inForBlock) && M(p) < old(M(p)) && (forall i int :: 0 <= i && i < len(list) ==> (list[i] == nil || pay(list[i]) != 0))
+//@ loop 1: invariant lexer.linv(p.Lexer) && lexer.lhtml(p.Lexer) && errsok(p) && M(p) <= old(M(p)) && p.inForBlock == old(p.inForBlock) && M(p) < old(M(p)) && (forall i int :: 0 <= i && i < len(list) ==> (list[i] == nil || pay(list[i]) != 0))
 //@ loop 1: decreases M(p)
 
 //@ func (p *parser) parseArrayLiteral
 //@ requires pinv(p)
 //@ requires cur: p.curToken.Type != token.EOF
-//@ ensures inv: lexer.linv(p.Lexer) && errsok(p) && M(p) <= old(M(p))
+//@ ensures inv: lexer.linv(p.Lexer) && lexer.lhtml(p.Lexer) && errsok(p) && M(p) <= old(M(p))
 //@ ensures flag: p.inForBlock == old(p.inForBlock)
 //@ ensures wf: result == nil || pay(result) != 0
 //@ ensures origc: is(result, "*ast.Identifier") ==> unbox(result, "*ast.Identifier").OriginalCallee != nil
@@ -364,7 +364,7 @@ package parser
 //@ requires cur: p.curToken.Type != token.EOF
 //@ requires left: left != nil && pay(left) != 0
 //@ requires leftorig: is(left, "*ast.Identifier") ==> unbox(left, "*ast.Identifier").OriginalCallee != nil
-//@ ensures inv: lexer.linv(p.Lexer) && errsok(p) && M(p) <= old(M(p))
+//@ ensures inv: lexer.linv(p.Lexer) && lexer.lhtml(p.Lexer) && errsok(p) && M(p) <= old(M(p))
 //@ ensures flag: p.inForBlock == old(p.inForBlock)
 //@ ensures wf: result == nil || pay(result) != 0
 //@ ensures origc: is(result, "*ast.Identifier") ==> unbox(result, "*ast.Identifier").OriginalCallee != nil
@@ -375,14 +375,14 @@ package parser
 //@ func (p *parser) parseHashLiteral
 //@ requires pinv(p)
 //@ requires cur: p.curToken.Type != token.EOF
-//@ ensures inv: lexer.linv(p.Lexer) && errsok(p) && M(p) <= old(M(p))
+//@ ensures inv: lexer.linv(p.Lexer) && lexer.lhtml(p.Lexer) && errsok(p) && M(p) <= old(M(p))
 //@ ensures flag: p.inForBlock == old(p.inForBlock)
 //@ ensures wf: result == nil || pay(result) != 0
 //@ ensures origc: is(result, "*ast.Identifier") ==> unbox(result, "*ast.Identifier").OriginalCallee != nil
 //@ assigns p.curToken, p.peekToken, p.errors, p.inForBlock, p.Lexer.ch, p.Lexer.position, p.Lexer.readPosition, p.Lexer.curLine, p.Lexer.inside, anyobj(ast.Identifier.Callee), anyobj(ast.CallExpression.Callee), anyobj(ast.CallExpression.Block), fresh
 //@ decreases M(p), 7
 //@ mutual
-//@ loop 1: invariant lexer.linv(p.Lexer) && errsok(p) && M(p) <= old(M(p)) && p.inForBlock == old(p.inForBlock) && hash != nil && hash.Pairs != nil && (p.curToken.Type != token.EOF || p.peekToken.Type != token.EOF) && (forall i int :: 0 <= i && i < len(hash.Order) ==> nnx(hash.Order[i]) && has(hash.Pairs, hash.Order[i])) && (forall k ast.Expression :: has(hash.Pairs, k) ==> nnx(k) && wfx(hash.Pairs[k]))
+//@ loop 1: invariant lexer.linv(p.Lexer) && lexer.lhtml(p.Lexer) && errsok(p) && M(p) <= old(M(p)) && p.inForBlock == old(p.inForBlock) && hash != nil && hash.Pairs != nil && (p.curToken.Type != token.EOF || p.peekToken.Type != token.EOF) && (forall i int :: 0 <= i && i < len(hash.Order) ==> nnx(hash.Order[i]) && has(hash.Pairs, hash.Order[i])) && (forall k ast.Expression :: has(hash.Pairs, k) ==> nnx(k) && wfx(hash.Pairs[k]))
 //@ loop 1: decreases M(p)
 
 //@ func (p *parser) assignCallee
@@ -390,7 +390,7 @@ package parser
 //@ requires cid: calleeIdent != nil
 //@ requires expwf: exp == nil || pay(exp) != 0
 //@ requires exporig: is(exp, "*ast.Identifier") ==> unbox(exp, "*ast.Identifier").OriginalCallee != nil
-//@ ensures inv: lexer.linv(p.Lexer) && errsok(p) && M(p) <= old(M(p))
+//@ ensures inv: lexer.linv(p.Lexer) && lexer.lhtml(p.Lexer) && errsok(p) && M(p) <= old(M(p))
 //@ ensures flag: p.inForBlock == old(p.inForBlock)
 //@ ensures wf: result == nil || pay(result) != 0
 //@ ensures origc: is(result, "*ast.Identifier") ==> unbox(result, "*ast.Identifier").OriginalCallee != nil
@@ -400,7 +400,7 @@ package parser
 //@ requires pinv(p)
 //@ ensures nonnil: returnData ==> v != nil
 //@ requires vwf: v == nil || pay(v) != 0
-//@ ensures inv: lexer.linv(p.Lexer) && errsok(p) && M(p) <= old(M(p))
+//@ ensures inv: lexer.linv(p.Lexer) && lexer.lhtml(p.Lexer) && errsok(p) && M(p) <= old(M(p))
 //@ ensures flag: p.inForBlock == old(p.inForBlock)
 //@ assigns p.curToken, p.peekToken, p.errors, p.inForBlock, p.Lexer.ch, p.Lexer.position, p.Lexer.readPosition, p.Lexer.curLine, p.Lexer.inside, anyobj(ast.Identifier.Callee), anyobj(ast.CallExpression.Callee), anyobj(ast.CallExpression.Block), fresh
 
